@@ -13,7 +13,7 @@ META = {
     "technique": "Lean 4 proof (induction over the sift loops, omega) + slot-for-slot replay of the real heap + differential run + timing oracle with one-sided comparisons",
 }
 
-THEOREMS = ["C11.heap_order_restored", "C11.heap_ops_preserve_order", "C11.minimum_is_reported", "C11.heap_contents_preserved",
+THEOREMS = ["C11.timer_armed_whatever_leeway", "C11.timer_config_bounds", "C11.heap_order_restored", "C11.heap_ops_preserve_order", "C11.minimum_is_reported", "C11.heap_contents_preserved",
             "C11.interleaving_is_two_heaps", "C11.reprogram_when_root_changes", "C11.missed_count_is_boundaries", "C11.count_never_exceeds_boundaries", "C11.latched_firing_count_bounded", "C11.oneshot_never_refires"]
 
 
@@ -70,6 +70,21 @@ def run(ctx):
         else: target = r.choice([2 ** 63 - 1, 2 ** 64 - 1, 2 ** 63])             # parked one-shot
         prev = r.choice([1, 3, 2 * r.below(1000) + 1, 2 * r.below(1000)])         # latched count << 1 | DISARMED marker
         lines.append("TD %d %d %d %d %d" % (target, min(2 ** 64 - 1, target + r.below(10 ** 6)), interval, now, prev))
+    # _dispatch_timer_config_create: what set_timer makes of (start, interval, leeway) on each clock, the clocks interposed
+    ntc = 0
+    for _ in range(12000 if ctx.thorough else 2500):
+        nu, nm, nw = 1 + r.below(10 ** 12), 1 + r.below(10 ** 12), 10 ** 18 + r.below(10 ** 17)
+        ck = r.below(3)
+        base = [nu, nm, nw][ck]
+        val = r.choice([0, base + r.below(10 ** 10), base - min(base - 1, r.below(10 ** 9)), 1 + r.below(2 ** 62 - 2), 2 ** 62 - 1 - r.below(3), 2 ** 62 - 1])
+        if ck == 0: start = val                                  # uptime: the value itself (0 = now)
+        elif ck == 1: start = 2 ** 63 + val                      # monotonic: bit 63
+        else: start = (2 ** 64 - val) % 2 ** 64 if val else 2 ** 64 - 2     # wall: the negated value; ~1 = wall now
+        if r.chance(1, 12): start = 2 ** 64 - 1                  # FOREVER
+        if ck == 2 and start < 2 ** 63 + 2 ** 62: start = 2 ** 64 - 2
+        interval = r.choice([0, 1, 2, 1000, 1 + r.below(10 ** 9), 1 + r.below(2 ** 40), 2 ** 63 - 1, 2 ** 63, 2 ** 64 - 1, 2 ** 63 - 2])
+        leeway = r.choice([0, 1, r.below(10 ** 9), interval // 2 if interval < 2 ** 63 else 7, interval // 2 + 1 if interval < 2 ** 63 else 9, 2 ** 63 - 1, 2 ** 63, 2 ** 64 - 1, 2 ** 62])
+        lines.append("TC %d %d %d %d %d %d %d" % (start, interval, leeway, r.below(3), nu, nm, nw)); ntc += 1
     real, _, _ = run_lines(h, lines)
     if drv:
         model, _, _ = run_lines(drv, lines)
@@ -84,7 +99,7 @@ def run(ctx):
                 ctx.violation("timer data: %s firings reported, %d latched and %d interval boundaries passed, on input `%s`" % (rr.split()[0], pv // 2, b, l), {"line": l, "real": rr, "harness": "harness/lfn.c"}, signature="timers:data-exceeds-boundaries")
                 break
         for l, rr, m in diffs[:3]:
-            ctx.broken("L-fn correspondence compute_missed (input `%s`: real %s, model %s)" % (l, rr, m))
+            ctx.broken("L-fn correspondence %s (input `%s`: real %s, model %s)" % ({"CM": "compute_missed", "TD": "_dispatch_source_timer_data", "TC": "_dispatch_timer_config_create"}.get(l.split()[0], "timer arithmetic"), l, rr, m))
     # 3. timing oracle on the real library
     ho = ctx.harness("c11_timers")
     runs = 6 if ctx.thorough else 2
